@@ -292,9 +292,47 @@ def gen_yaml_cases(rng, n):
 ESC_ALPHA = common.HOSTILE_CHARS + ["$", "$$", "'", '"', "\\", "<", ">", "&", "`", "!", "\n", "a", "b", " "]
 
 
+def long_codec_cases(rng):
+    """Inputs whose length sits around a power of two (256 .. 65536) with a multi-byte character (or a broken sequence) placed so
+    that it straddles every byte offset near that boundary: block-wise implementations must not split it."""
+    J = jstr
+    base = rng.choice([256, 512, 1024, 2048, 4096, 8192, 16384, 65536])
+    k = base + rng.randint(-6, 3)                      # ASCII bytes before the interesting sequence
+    ch = rng.choice(["\u00e9", "\u20ac", "\U0001f600", "\u00e9\u20ac", "\U0001f600\U0001f600"])
+    tail = rng.choice(["", "t", "tail\u20ac"])
+    sj = "(std.repeat('a', %d) + %s + %s)" % (k, J(ch), J(tail))
+    spy = "a" * k + ch + tail
+    data = spy.encode("utf-8")
+    yield ("long_decode_encode", "local s = %s; std.decodeUTF8(std.encodeUTF8(s)) == s" % sj, True)
+    yield ("long_encode_length", "std.length(std.encodeUTF8(%s))" % sj, len(data))
+    yield ("long_length", "std.length(%s)" % sj, len(spy))
+    yield ("long_encode_window", "std.encodeUTF8(%s)[%d:%d]" % (sj, max(0, k - 2), k + 6), list(data[max(0, k - 2):k + 6]))
+    f, h = rng.choice([("md5", hashlib.md5), ("sha1", hashlib.sha1), ("sha256", hashlib.sha256), ("sha512", hashlib.sha512), ("sha3", hashlib.sha3_512)])
+    yield ("long_" + f, "std.%s(%s)" % (f, sj), h(data).hexdigest())
+    yield ("long_base64_str_inverse", "local s = %s; std.base64DecodeBytes(std.base64(std.encodeUTF8(s))) == std.encodeUTF8(s)" % sj, True)
+    yield ("long_base64", "std.length(std.base64(std.encodeUTF8(%s)))" % sj, len(base64.b64encode(data)))
+    yield ("long_escape_json", "local s = %s; std.parseJson(std.escapeStringJson(s)) == s" % sj, True)
+    yield ("long_manifest_parse", "local s = %s; std.parseJson(std.manifestJsonEx([s], '')) == [s]" % sj, True)
+    yield ("long_split_join", "local s = %s; std.join('a', std.split(s, 'a')) == s" % sj, True)
+    # raw bytes: a valid or truncated / invalid sequence across the boundary, decoded lossily
+    seq = rng.choice([b"\xc3\xa9", b"\xe2\x82\xac", b"\xf0\x9f\x98\x80", b"\xe2\x82", b"\xf0\x9f\x98", b"\xc3", b"\xf0\x9f", b"\xed\xa0\x80",
+                      b"\xe2\x82\xac\xe2\x82\xac", b"\xf0\x9f\x98\x80\xc3\xa9"])
+    after = rng.choice([b"", b"z", b"\xa9", b"\xe2\x82\xac"])
+    raw = b"a" * k + seq + after
+    bj = "(std.makeArray(%d, function(i) 97) + %s)" % (k, json.dumps(list(seq + after)))
+    want = raw.decode("utf-8", "replace")
+    yield ("long_decodeUTF8_lossy", "local t = std.decodeUTF8(%s); [std.length(t), std.substr(t, %d, 12)]" % (bj, max(0, k - 2)),
+           [float(len(want)), want[max(0, k - 2):max(0, k - 2) + 12]])
+    yield ("long_base64DecodeBytes", "local b = %s; std.base64DecodeBytes(std.base64(b)) == b" % bj, True)
+    yield ("long_base64Decode", "local b = %s; local t = std.base64Decode(std.base64(b)); [std.length(t), std.map(std.codepoint, std.stringChars(std.substr(t, %d, 8)))]"
+           % (bj, max(0, k - 2)), [float(len(raw)), [float(x) for x in raw[max(0, k - 2):max(0, k - 2) + 8]]])
+
+
 def gen_codec_cases(rng, n):
     J = jstr
     for i in range(n):
+        if i % 25 == 0:
+            yield from long_codec_cases(rng)
         fam = rng.randrange(12)
         s = "".join(rng.choice(ESC_ALPHA) for _ in range(rng.randint(0, 10)))
         bs = [rng.randrange(256) for _ in range(rng.randint(0, 12))]
@@ -319,6 +357,11 @@ def gen_codec_cases(rng, n):
             a = "".join(rng.choice("abcXYZ019 ~!") for _ in range(rng.randint(0, 10)))
             yield ("base64_str", "std.base64(%s)" % J(a), base64.b64encode(a.encode()).decode())
             yield ("base64Decode_inverse", "std.base64Decode(std.base64(%s))" % J(a), a)
+            # the decoded string has one code point per decoded byte, whatever the bytes spell (also valid UTF-8 text)
+            payload = rng.choice([raw, "".join(rng.choice(["\u00e9", "\u20ac", "\U0001f600", "a", "\u00c3\u00a9", "\u00ff"])
+                                               for _ in range(rng.randint(1, 4))).encode("utf-8"), b"\xc3\xa9", b"\xe2\x82\xac"])
+            yield ("base64Decode_bytes", "std.map(std.codepoint, std.stringChars(std.base64Decode(%s)))" % J(base64.b64encode(payload).decode()),
+                   [float(b) for b in payload])
         elif fam == 3:
             enc = base64.b64encode(raw).decode()
             yield ("base64DecodeBytes", "std.base64DecodeBytes(%s)" % J(enc), bs)
